@@ -78,6 +78,27 @@ theorem halofit_takahashi_nonneg (opq : String → ℝ → ℝ) (ρ : String →
   generalize hNF : (1 * 10 ^ (0:ℤ) + ρ "cosmo.Onu0" / ρ "cosmo.Om0" * (977 * 10 ^ (-3:ℤ) - 18015 * 10 ^ (-3:ℤ) * (ρ "cosmo.Om0" - 3 * 10 ^ (-1:ℤ))) : ℝ) = nf at hfac ⊢
   split_ifs <;> positivity
 
+open Real in
+set_option maxHeartbeats 1000000 in
+/-- C18 (original Smith et al. 2003 coefficients, `takahashi=False`): the same non-negativity, when the interpolation weight
+    Ω_Λ(z)/(1 − Ω_m(z)) between the open and the flat coefficient sets lies in [0, 1] (it does for every ΛCDM cosmology) -/
+theorem halofit_smith_nonneg (opq : String → ℝ → ℝ) (ρ : String → ℝ) (ht : ρ "flag:takahashi" = 0) (hd : 0 ≤ ρ "delta_k") (hk : 0 < ρ "k") (hr : 0 < ρ "rknl")
+    (hOm : 0 < ρ "cosmo.Om0") (hnu : 0 ≤ ρ "cosmo.Onu0") (hOmz : ∀ x, 0 < opq "cosmo.Om" x)
+    (hw : 0 ≤ opq "cosmo.Ode" (ρ "z") / (1 * 10 ^ (0:ℤ) - opq "cosmo.Om" (ρ "z")) ∧
+          opq "cosmo.Ode" (ρ "z") / (1 * 10 ^ (0:ℤ) - opq "cosmo.Om" (ρ "z")) ≤ 1 * 10 ^ (0:ℤ))
+    (hfac : 0 ≤ (1 * 10 ^ (0:ℤ) + ρ "cosmo.Onu0" / ρ "cosmo.Om0" * (977 * 10 ^ (-3:ℤ) - 18015 * 10 ^ (-3:ℤ) * (ρ "cosmo.Om0" - 3 * 10 ^ (-1:ℤ))) : ℝ)) :
+    0 ≤ evalR opq ρ Gen.Halofit.halofit_pnl := by
+  obtain ⟨lg, hlg⟩ : ∃ lg : ℝ → ℝ, ∀ x, opq "cosmo.Om" x = exp (lg x) :=
+    ⟨fun x => log (opq "cosmo.Om" x), fun x => (exp_log (hOmz x)).symm⟩
+  simp only [Gen.Halofit.halofit_pnl]; expr_unfold; push_cast
+  simp only [decide_eq_true_eq, hlg, ht, show ¬ ((5:ℝ) * 10 ^ (-1:ℤ) < 0) by norm_num, if_false] at hw ⊢
+  generalize hNF : (1 * 10 ^ (0:ℤ) + ρ "cosmo.Onu0" / ρ "cosmo.Om0" * (977 * 10 ^ (-3:ℤ) - 18015 * 10 ^ (-3:ℤ) * (ρ "cosmo.Om0" - 3 * 10 ^ (-1:ℤ))) : ℝ) = nf at hfac ⊢
+  generalize hFR : opq "cosmo.Ode" (ρ "z") / (1 * 10 ^ (0:ℤ) - rexp (lg (ρ "z"))) = fr at hw ⊢
+  obtain ⟨hw0, hw1⟩ := hw
+  have hg0 : 0 ≤ 1 * 10 ^ (0:ℤ) - fr := by linarith
+  generalize hG : 1 * 10 ^ (0:ℤ) - fr = g at hg0 ⊢
+  split_ifs <;> positivity
+
 /-- C18: `nonlinear_delta_k` is HALOFIT applied to the object's own (k, Δ²_lin, z, cosmology, switch) — every argument wired,
     none left at the callee's default -/
 theorem halofit_call_wiring : Gen.Flow.wiring.lookup "Transfer.nonlinear_delta_k" = some Spec.Wiring.halofit := by decide
